@@ -282,7 +282,9 @@ impl Ctx {
             });
             let _ = std::fs::write(&path, serde_json::to_string_pretty(&body).unwrap_or_default());
         }
-        if self.violations.len() < 50 {
+        // correspondence disagreements must not crowd out failing inputs of the property's own oracle
+        let room = if kind == "correspondence" { self.violations.iter().filter(|v| v.kind == "correspondence").count() < 50 } else { self.violations.iter().filter(|v| v.kind != "correspondence").count() < 50 };
+        if room {
             self.violations.push(Violation {
                 kind: kind.to_string(),
                 what: what.to_string(),
